@@ -486,7 +486,8 @@ class Engine:
             self.journal.append(lambda: o.items.__setitem__(slice(None), snap))
         elif isinstance(o, PDict):
             snap = dict(o.d)
-            self.journal.append(lambda: (o.d.clear(), o.d.update(snap)))
+            snap_sym = [list(p_) for p_ in o.sym]
+            self.journal.append(lambda: (o.d.clear(), o.d.update(snap), o.sym.__setitem__(slice(None), snap_sym)))
         elif isinstance(o, Obj):
             snap = dict(o.d)
             self.journal.append(lambda: (o.d.clear(), o.d.update(snap)))
@@ -1177,6 +1178,52 @@ class Engine:
                 d.d[self.hashable(self.ev(k))] = self.ev(v)
         return d
 
+    def is_symkey(self, k):
+        if isinstance(k, Str):
+            return True
+        if isinstance(k, (SymInt, SymBool)):
+            return True
+        if isinstance(k, tuple):
+            return any(self.is_symkey(x) for x in k)
+        return False
+
+    def dict_find(self, o, k):
+        """position of key k among the entries of PDict o: ("d", key) / ("sym", index) / None; forks on equality"""
+        if not self.is_symkey(k):
+            kk = self.hashable(k)
+            if kk in o.d:
+                return ("d", kk)
+            for i, (k2, _) in enumerate(o.sym):
+                if self.decide(self.truth(self.equal(k2, k))):
+                    return ("sym", i)
+            return None
+        for kk in list(o.d.keys()):
+            if self.decide(self.truth(self.equal(kk, k))):
+                return ("d", kk)
+        for i, (k2, _) in enumerate(o.sym):
+            if self.decide(self.truth(self.equal(k2, k))):
+                return ("sym", i)
+        return None
+
+    def dict_get(self, o, k, default=NOTSET):
+        hit = self.dict_find(o, k)
+        if hit is None:
+            return default
+        return o.d[hit[1]] if hit[0] == "d" else o.sym[hit[1]][1]
+
+    def dict_set(self, o, k, v):
+        hit = self.dict_find(o, k)
+        self.structural(o)
+        if hit is None:
+            if self.is_symkey(k):
+                o.sym.append([k, v])
+            else:
+                o.d[self.hashable(k)] = v
+        elif hit[0] == "d":
+            o.d[hit[1]] = v
+        else:
+            o.sym[hit[1]][1] = v
+
     def hashable(self, k):
         if isinstance(k, (str, int, bool, tuple)) or k is None:
             return k
@@ -1359,7 +1406,7 @@ class Engine:
 
     def contains(self, cont, x):
         if isinstance(cont, PDict):
-            return self.hashable(x) in cont.d
+            return self.dict_find(cont, x) is not None
         if isinstance(cont, (PList, tuple, Bytes)):
             items = cont.items if not isinstance(cont, tuple) else cont
             acc = False
@@ -1684,10 +1731,10 @@ class Engine:
 
     def getitem(self, o, idx):
         if isinstance(o, PDict):
-            k = self.hashable(idx)
-            if k not in o.d:
-                self.throw("KeyError", str(k))
-            return o.d[k]
+            r = self.dict_get(o, idx)
+            if r is NOTSET:
+                self.throw("KeyError", "key not found")
+            return r
         kind, seq = self.seq_of(o)
         if kind is None:
             if isinstance(o, Obj):
@@ -1745,8 +1792,7 @@ class Engine:
 
     def setitem(self, o, idx, v):
         if isinstance(o, PDict):
-            self.structural(o)
-            o.d[self.hashable(idx)] = v
+            self.dict_set(o, idx, v)
             return
         if isinstance(o, Bytes):
             if not o.mutable:
